@@ -605,3 +605,33 @@ Proof.
     destruct (streq arch s_x86_64); [reflexivity|]. destruct (streq arch s_aarch64); reflexivity.
   - reflexivity.
 Qed.
+
+(* ---------------------------------------------------------------- the memoised probe *)
+Lemma run_probes_filled v envs : run_probes (Some v) envs = map (fun _ => v) envs.
+Proof. induction envs as [|e t IH]; cbn [run_probes cached_probe map]; [reflexivity | now rewrite IH]. Qed.
+(* from an empty cache every call answers what the first call probed; in an unchanged environment that is what an
+   uncached probe answers each time (the cache is transparent); cache_clear() (= starting again from None) re-probes *)
+Lemma probes_memoised e envs : run_probes None (e :: envs) = e :: map (fun _ => e) envs.
+Proof. cbn [run_probes cached_probe]. now rewrite run_probes_filled. Qed.
+Lemma probes_transparent e n : run_probes None (repeat e n) = repeat e n.
+Proof. destruct n as [|n]; [reflexivity|]. cbn [repeat]. rewrite probes_memoised. f_equal. induction n; cbn; congruence. Qed.
+
+(* ---------------------------------------------------------------- _mac_binary_formats as a table *)
+Lemma mac_formats_table v :
+  mac_binary_formats v s_x86_64 = (if ver_lt v (10, 4)%nat then [] else [s_x86_64; s_intel; s_fat64; s_fat32; s_universal2; s_universal]) /\
+  mac_binary_formats v s_i386 = (if ver_lt v (10, 4)%nat then [] else [s_i386; s_intel; s_fat32; s_fat; s_universal]) /\
+  mac_binary_formats v s_ppc64 = (if ver_lt (10, 5)%nat v || ver_lt v (10, 4)%nat then [] else [s_ppc64; s_fat64; s_universal]) /\
+  mac_binary_formats v s_ppc = (if ver_lt (10, 6)%nat v then [] else [s_ppc; s_fat32; s_fat; s_universal]) /\
+  mac_binary_formats v s_arm64 = [s_arm64; s_universal2] /\
+  mac_binary_formats v s_intel = [s_intel; s_universal] /\
+  (forall a, ~ In a [s_x86_64; s_i386; s_ppc64; s_ppc; s_arm64; s_intel] -> mac_binary_formats v a = [a]).
+Proof.
+  repeat split; try (unfold mac_binary_formats; destruct (ver_lt v (10, 4)%nat), (ver_lt (10, 5)%nat v), (ver_lt (10, 6)%nat v); reflexivity).
+  intros a H. unfold mac_binary_formats, in_set, mem. cbn [existsb].
+  destruct (streq_spec a s_x86_64) as [->|N1]; [exfalso; apply H; cbn; auto|].
+  destruct (streq_spec a s_i386) as [->|N2]; [exfalso; apply H; cbn; auto|].
+  destruct (streq_spec a s_ppc64) as [->|N3]; [exfalso; apply H; cbn; auto|].
+  destruct (streq_spec a s_ppc) as [->|N4]; [exfalso; apply H; cbn; auto|].
+  destruct (streq_spec a s_arm64) as [->|N5]; [exfalso; apply H; cbn; auto 10|].
+  destruct (streq_spec a s_intel) as [->|N6]; [exfalso; apply H; cbn; auto 10|]. reflexivity.
+Qed.
